@@ -208,6 +208,19 @@ extern "C" size_t __wrap_fread(void* buf, size_t sz, size_t n, FILE* f) {
     errno = e;
     return sz ? got / sz : 0;
 }
+// a write that transfers only part of the request (disk full in the middle, interrupted write): whatever the translator does next, a run
+// that reports success must have produced the complete output
+extern "C" size_t __real_fwrite(const void*, size_t, size_t, FILE*);
+extern "C" size_t __wrap_fwrite(const void* buf, size_t sz, size_t n, FILE* f) {
+    if (!sim::in_sut() || !sim::active() || f == stderr || f == stdout) return __real_fwrite(buf, sz, n, f);
+    int e = fault_for("fwrite");
+    if (!e) return __real_fwrite(buf, sz, n, f);
+    size_t total = sz * n; if (total < 2) return __real_fwrite(buf, sz, n, f);
+    S->io_faults++; count_fault(F_SHORT_WRITE);
+    size_t got = __real_fwrite(buf, 1, total / 2, f);
+    errno = e;
+    return sz ? got / sz : 0;
+}
 int __wrap_fclose(FILE* f) {
     if (!sim::in_sut() || !sim::active()) return __real_fclose(f);
     sim::yield(Y_IO, 2);
@@ -463,6 +476,9 @@ static Plan make_plan(const std::string& prop, uint64_t root, uint64_t idx, bool
     else if (prop == "C09" && r.below(8) == 0) {
         // an output (or input) file that cannot be opened / closed: the run may fail, but it must not report success with an incomplete output set
         IoFault f; f.call = r.below(4) ? "fopen" : "fclose"; f.nth = 1 + (int)r.below(12); static const int errs[] = {ENOSPC, EMFILE, EIO, EACCES}; f.err = errs[r.below(4)];
+        // the data segment file of the external embedding modes is the one output written with fwrite
+        bool ext = false; for (auto& a : p.args) if (a[0] == "-d" && a.size() > 1 && a[1] != "arrays") ext = true;
+        if (ext && r.below(2)) { f.call = "fwrite"; f.nth = 1 + (int)r.below(3); f.err = r.below(2) ? ENOSPC : EINTR; }
         p.faults.push_back(f);
     }
     return p;
